@@ -123,6 +123,45 @@ Definition url_taglist (plain : bool) (r : reference) : str :=
 Definition url_upload (plain : bool) (r : reference) : str :=
   url_repo_base plain r ++ b "/blobs/uploads/".
 
+(* Generic URL syntax (RFC 3986 section 3, what net/url implements):
+     scheme ":" "//" authority path-abempty [ "?" query ] [ "#" fragment ]
+   the authority ends at the first '/', '?' or '#'; the path at the first '?' or '#'.
+   Used to STATE where the parts of a reference end up in a built URL (theorem C20_url_exact) and,
+   extracted, compared with net/url's own parse of every URL of the differential run. *)
+Definition c_qm := 63. Definition c_hash := 35.
+Fixpoint take_until (stops : list N) (s : str) : str * str :=
+  match s with
+  | [] => ([], [])
+  | c :: t => if contains c stops then ([], s)
+              else let (a, r) := take_until stops t in (c :: a, r)
+  end.
+Record url_parts := mkParts { u_scheme : str; u_authority : str; u_path : str;
+                              u_query : option str; u_fragment : option str }.
+Definition url_split (u : str) : option url_parts :=
+  let (sch, r0) := take_until [c_colon] u in
+  match r0 with
+  | 58 :: 47 :: 47 :: r1 =>
+      let (auth, r2) := take_until [c_slash; c_qm; c_hash] r1 in
+      let (path, r3) := take_until [c_qm; c_hash] r2 in
+      let (q, r4) := match r3 with
+                     | 63 :: r => let (q, r') := take_until [c_hash] r in (Some q, r')
+                     | _ => (None, r3)
+                     end in
+      let f := match r4 with 35 :: r => Some r | _ => None end in
+      Some (mkParts sch auth path q f)
+  | _ => None
+  end.
+(* strings.Split(s, c) *)
+Fixpoint split_on (c : N) (s : str) : list str :=
+  match s with
+  | [] => [[]]
+  | x :: t => if x =? c then [] :: split_on c t
+              else match split_on c t with
+                   | h :: r => (x :: h) :: r
+                   | [] => [[x]]
+                   end
+  end.
+
 (* Conservative model of url.ParseRequestURI("dummy://"+reg) with Host == reg,
    used only by the correspondence check: Some true / Some false when the
    verdict does not depend on net/url subtleties, None = not judged. *)
